@@ -511,7 +511,8 @@ func selfTest(c *mon.Case) {
 
 func Spec() *mon.Spec {
 	return &mon.Spec{
-		ID: "C05", Level: "exploration",
+		ID:            "C05",
+		SpinViolation: true, Level: "exploration",
 		Rule: "roundtrip: typed numbers (random float64 bit patterns, every exponent field value, subnormals, ±0, ±Inf, NaN, integers around 2^31..2^64 and big, random big rationals, a fixed boundary list) go through to-string and num (vals.ToString/ParseNum for all, the builtins incl. `eq $x (num (to-string $x))` for a sample); the result must have the same Go type and value (float bits; NaN stays NaN), and the string must be a literal that the documented grammar reads as exactly that number. literal: generated texts in the documented syntaxes (decimal, 0x/0o/0b, a/b, decimal-point and scientific floats incl. exact halfway decimals and range limits, Inf/NaN; random case, underscores between digits) are classified and evaluated by an independent reader of the documented grammar (exact big.Rat, own round-to-nearest-even) and compared with num: value and canonical Go type. nonnumber: near-miss texts must be rejected. Non-trivial = every non-int roundtrip number, every valid literal, every rejected near miss; distinct by text.",
 		Assumptions: []string{
 			"a float literal whose value rounds beyond the float64 range may give ±Inf or raise (the documentation does not say)",
